@@ -348,6 +348,10 @@ def lister_lines_post(S):
     if len(lines) != len(parsed) or not parsed:
         return False
     for (p, info, arg, who), (stream, line) in zip(parsed, lines):
+        if isinstance(who, str):
+            # the parser that ran was installed by the real _new_stream, not by its summary: the summary was not applied
+            # (e.g. the nested class was renamed) and this clause, which speaks through the summary's ghost, does not apply
+            raise Unsupported("AsyncLister.__anext__: the _new_stream summary was not applied; the line-accounting clause is undecided")
         if arg is not line or who is not stream:
             return False
     if S.vars["lister"].fields["stream"] is not lines[-1][0]:
